@@ -318,11 +318,35 @@ func (g *Gen) oblige(kind string, goal Term, text string) {
 	if goal.S == "true" {
 		return
 	}
+	if g.con != nil && g.con.Opts["safety"] == "off" && isSafetyKind(kind) {
+		// opt safety=off: the function is under contract for its functional clauses only; index, slice, nil,
+		// division, overflow, explicit-panic obligations and callee preconditions are not checked (listed as
+		// unchecked in the evidence) - they are assumed, i.e. the functional clauses speak about the executions
+		// that do not panic
+		note := "memory-safety and callee-precondition obligations of " + g.fnName() + " are not generated (opt safety=off)"
+		dup := false
+		for _, a := range g.assumptions {
+			dup = dup || a == note
+		}
+		if !dup {
+			g.assumptions = append(g.assumptions, note)
+		}
+		g.assumeReach(goal)
+		return
+	}
 	g.counts[kind]++
 	name := fmt.Sprintf("%s#%s[%d]", g.fnName(), kind, g.counts[kind])
 	o := &Obl{Name: name, Kind: kind, Goal: goal, Reach: g.reach, Lines: len(g.lines), Pos: g.posStr(), Text: text, Func: g.fnName()}
 	g.obls = append(g.obls, o)
 	g.assumeReach(goal)
+}
+
+func isSafetyKind(kind string) bool {
+	switch kind {
+	case "index", "slice", "nil", "div", "overflow", "bitop", "panic", "shift", "conv", "typeassert", "makeslice":
+		return true
+	}
+	return strings.HasPrefix(kind, "call[") && strings.HasSuffix(kind, ".requires")
 }
 
 func (g *Gen) cover(kind string, text string) {
